@@ -78,6 +78,7 @@ package layer2
 //@   modifies $held, map(a.ips), map(a.ipRefcnt), elems(a.ips[name]), fresh []IPAdvertisement, map[string]int64, fresh []interface{}
 //@   loop 2 binds client
 //@   loop 2 invariant forall x string :: a.ipRefcnt[x] == old(a.ipRefcnt[x]) + ite(x == net.ipstr(adv.ip), 1, 0)
+//@   loop 2 invariant [last] (name in a.ips) && len(a.ips[name]) >= 1 && a.ips[name][len(a.ips[name]) - 1] == adv
 //@   assert after Equal#1: [found] ret ==> old(HasStr(a, name, net.ipstr(adv.ip)))
 //@   loop 1 binds i
 //@   loop 1 invariant lockstate(a.RWMutex) == 2 && AnnInv(a) && (name in a.ips) && sameSlice(ipAdvertisements, a.ips[name])
